@@ -70,12 +70,20 @@ FLOORS = {
               "eval:kfold_balance": 1300, "eval:kfold_equal_blocks": 4500, "eval:kfold_fallback_justified": 1600,
               "eval:kfold_rejects_excess_splits": 250, "eval:shuffle_n_splits": 600, "eval:shuffle_test_block_count": 1800,
               "eval:shuffle_replay": 1700, "eval:reproducible": 800, "eval:partition_by_sum": 1500,
-              "eval:partition_by_sum_refusal": 1900, "eval:labels_match_reference": 6800, "distinct_nontrivial": 5700},
+              "eval:partition_by_sum_refusal": 1900, "eval:labels_match_reference": 6800, "distinct_nontrivial": 5700,
+              "class:sparse_ids:pairs": 400, "class:sparse_ids:pairs_many_selected_blocks(sort regime)": 280,
+              "class:sparse_ids:pairs_few_selected_blocks(loop regime)": 100, "class:sparse_ids:pairs_over_100_test_blocks": 20,
+              "class:sparse_ids:BlockKFold": 45, "class:sparse_ids:BlockShuffleSplit": 45, "class:integer_coordinates": 150,
+              "class:float32_coordinates": 130, "class:fortran_ordered_X": 180},
     "thorough": {"eval:split_partition": 720000, "eval:block_integrity": 720000, "eval:kfold_folds": 187000,
                  "eval:kfold_balance": 38000, "eval:kfold_equal_blocks": 149000, "eval:kfold_fallback_justified": 55000,
                  "eval:kfold_rejects_excess_splits": 5500, "eval:shuffle_n_splits": 10000, "eval:shuffle_test_block_count": 28000,
                  "eval:shuffle_replay": 27000, "eval:reproducible": 15000, "eval:partition_by_sum": 40000,
-                 "eval:partition_by_sum_refusal": 59000, "eval:labels_match_reference": 200000, "distinct_nontrivial": 180000},
+                 "eval:partition_by_sum_refusal": 59000, "eval:labels_match_reference": 200000, "distinct_nontrivial": 180000,
+                 "class:sparse_ids:pairs": 6400, "class:sparse_ids:pairs_many_selected_blocks(sort regime)": 4500,
+                 "class:sparse_ids:pairs_few_selected_blocks(loop regime)": 1600, "class:sparse_ids:pairs_over_100_test_blocks": 500,
+                 "class:sparse_ids:BlockKFold": 750, "class:sparse_ids:BlockShuffleSplit": 750, "class:integer_coordinates": 2000,
+                 "class:float32_coordinates": 2000, "class:fortran_ordered_X": 2000},
 }
 JOBS = {"quick": 1, "thorough": 8}
 CASE_TIMEOUT_S = 300
